@@ -74,6 +74,14 @@ class LibRaised(Exception):
     pass
 
 
+RESOURCE_MARKERS = ("Cannot allocate memory", "RESOURCE_EXHAUSTED", "Out of memory", "out of memory", "LLVM compilation error",
+                    "Unable to allocate", "Failed to allocate")
+
+
+class ResourceExhausted(RuntimeError):
+    """Raised instead of recording a failure when an exception in library code is the machine running out of memory."""
+
+
 def lib(fails, label, fn, *a, **k):
     """Run library code; an exception there is a property failure (in-domain input), not a harness error.
     Returns (ok, value)."""
@@ -81,6 +89,10 @@ def lib(fails, label, fn, *a, **k):
         return True, fn(*a, **k)
     except Exception as e:  # noqa: BLE001 - library under test
         import traceback
+
+        if isinstance(e, MemoryError) or any(t in str(e) for t in RESOURCE_MARKERS):
+            # the machine ran out of memory while compiling / running: inconclusive (harness error, exit 2), never a violation
+            raise ResourceExhausted(f"{label}: {type(e).__name__}: {str(e)[:200]}") from e
 
         tb = traceback.format_exc().splitlines()
         # keep only the innermost library frames
